@@ -110,6 +110,7 @@ impl ClientPlan {
                 dead_from_conn: None,
                 dead_point: 1,
                 abort_extras: 0,
+                status_currency: None,
             },
             init: ConfigureOutcome::plain(),
             ops,
